@@ -16,6 +16,10 @@ var NetFaultKinds = []string{
 	"head-text-tamper", "craft-append", "equivocate", "zero",
 }
 
+// DiskAssistedNetKinds are network faults whose author also controls the machine's disk (kept apart from
+// NetFaultKinds so that recorded tapes keep their meaning).
+var DiskAssistedNetKinds = []string{"forge-record+cached-leaf"}
+
 // BenignNetKinds are legal behaviours of an honest network/server.
 var BenignNetKinds = []string{"extra-sig", "partial-404", "extra-head-lines"}
 
@@ -161,7 +165,7 @@ func (w *World) applyNetFault(c *ClientInfo, f *Fault, path string, data []byte,
 		}
 		out = append([]byte(nil), old[int(f.A%uint64(len(old)-1))]...)
 		what = "replay of an earlier answer"
-	case "forge-record", "forge-record-other-id", "forge-record+leaf", "forge-chain-wrongkey", "forge-chain-unsigned", "unsigned-head", "head-text-tamper", "craft-append":
+	case "forge-record", "forge-record-other-id", "forge-record+leaf", "forge-record+cached-leaf", "forge-chain-wrongkey", "forge-chain-unsigned", "unsigned-head", "head-text-tamper", "craft-append":
 		if !isLookup {
 			return data, err
 		}
@@ -185,6 +189,29 @@ func (w *World) applyNetFault(c *ClientInfo, f *Fault, path string, data []byte,
 				c.ForgedLeaf = map[int64]ref.Hash{}
 			}
 			c.ForgedLeaf[id] = ref.LeafHash([]byte(forged))
+		case "forge-record+cached-leaf":
+			// the attacker also controls the disk: the leaf tile that holds the record is planted in the
+			// machine's cache with the forged record's hash in place of the true one (every other hash in
+			// it is true), at the width this client will ask for and, if the log covers it, at full width
+			out = append([]byte(ref.FormatRecordMsg(id, forged)), rest...)
+			fh := ref.LeafHash([]byte(forged))
+			n := id >> uint(c.Height)
+			for _, total := range []int64{c.Size, c.Uni.N()} {
+				wd := total - n<<uint(c.Height)
+				if wd > 1<<uint(c.Height) {
+					wd = 1 << uint(c.Height)
+				}
+				if wd <= id-n<<uint(c.Height) {
+					continue
+				}
+				tc := TileCoord{H: c.Height, L: 0, N: n, W: int(wd)}
+				td := append([]byte(nil), c.Uni.TileData(tc)...)
+				copy(td[(id-n<<uint(c.Height))*32:], fh[:])
+				file := ServerName + "/" + TilePath(tc)
+				c.Machine.Cache[c.Machine.cacheKey(file)] = td
+				w.Res.Logf("c%d FAULT forged leaf tile planted in the cache as %s (leaf %d)", c.ID, file, id)
+			}
+			w.Res.Faults["cache-forged-leaf-tile-planted"]++
 		case "forge-chain-wrongkey", "forge-chain-unsigned":
 			// a completely self-consistent forged log (record, all tiles, head) that only lacks the log's signature
 			fu := c.Uni.Fork("forged", c.Size)
